@@ -51,8 +51,12 @@ def run(ctx):
         for opc, arm in sorted(arms.get(fname, {}).items()):
             e = entry_by_code.get(opc)
             if e is None:
-                ctx.ob("%s/%d/has-grammar-entry" % (fname, opc), False)
-                ctx.violation("lift/%s/unknown-opcode/%d" % (fname, opc), "lift arm for opcode %d which has no grammar entry" % opc, None)
+                real = rp.ask("lookup core %d" % opc)
+                if real.get("found") is False:
+                    ctx.ob("%s/%d/has-grammar-entry" % (fname, opc), False)
+                    ctx.violation("lift/%s/unknown-opcode/%d" % (fname, opc), "lift arm for opcode %d which has no grammar entry" % opc, {"cmd": "lookup core %d" % opc, "real": real})
+                else:
+                    ctx.ob("%s/%d/has-grammar-entry" % (fname, opc), None, "my table has no entry for opcode %d but the compiled crate finds %s" % (opc, real.get("opname")))
                 continue
             if arm["fields"] is None:
                 ctx.ob("%s/%s/shape" % (fname, e["opname"]), None, arm.get("raw"))
